@@ -92,7 +92,7 @@ class C15(common.Spec):
                 if k == 'obj':
                     return blocks[r[1]]
                 if k == 'name':
-                    return r[1]
+                    return ''.join(list(r[1]))      # equal to the block's name, not the same object
                 if k == 'constobj':
                     return edzed.Const(dec(r[1]))
                 if k == 'val':
@@ -371,7 +371,7 @@ def check(run):
                 "observed after an explicit Circuit.finalize() and after a normal start: inputs, "
                 "iconnections, oconnections, get_conf()['inputs'], resolved names, refusal of late "
                 "addblock/connect/set_persistent_data. Non-trivial = >= 2 inputs; distinct by JSON.")
-    n = 500 if run.tier == 'quick' else 5000
+    n = 500 if run.tier == 'quick' else 15000
     cases = [gen_case(run.rng) for _ in range(n)] + [gen_case(run.rng, bad=True) for _ in range(n // 4)]
     for c in cases:
         run.count('mode_' + c['mode'])
